@@ -3,9 +3,9 @@
 Real code (ppci/format/srecord.py): write_srecord, SRecord.__init__ / to_line
 (+ ppci.utils.bitfun.value_to_bytes_big_endian, ppci.utils.chunk.chunks, ObjectFile.get_section).
 
-Symbolic: the code bytes (all of them up to 4 KiB and in the thorough tier also for the sizes around
-64 KiB; in the quick tier the 64 KiB sizes have symbolic windows - first/last records and the records
-around offset 65536 - and a fixed byte pattern elsewhere).  Concrete: the code size (enumerated family).
+Symbolic: the code bytes (all of them up to 2000 bytes; the sizes around 4 KiB / 64 KiB have symbolic
+windows - first/last records and the records around offset 65536 - and a fixed byte pattern elsewhere:
+a fully symbolic 64 KiB image needs > 12 GB).  Concrete: the code size (enumerated family).
 The object is a real ppci ObjectFile whose "code" section sits at address 0 (Section default).
 
 Oracle: ref/srec.py (reader written from the S-record format description).
@@ -26,8 +26,9 @@ BOUNDS = {
     "quick": {"code sizes": "0,1,2,3,29,30,31,59,60,61,90,91,255,256 (all bytes symbolic); "
                             "65535, 65536, 65537, 65566, 65600 (symbolic windows of 64 bytes at the start, "
                             "around offset 65536 and at the end; fixed pattern elsewhere)"},
-    "thorough": {"code sizes": "0..124, 255, 256, 257, 1000, 4095, 4096 (all bytes symbolic); "
-                               "65535, 65536, 65537, 65566, 65600, 70000 (all bytes symbolic)"},
+    "thorough": {"code sizes": "0..124, 255, 256, 257, 1000, 2000 (all bytes symbolic); 4095, 4096, 65535, 65536, 65537, "
+                               "65566, 65600, 70000 (symbolic windows of 512 bytes at the start, around offset "
+                               "65536 and at the end; fixed pattern elsewhere)"},
 }
 OUTSIDE = ["code of 16 MiB and more (S3 records)", "a code section placed at a non-zero address "
            "(write_srecord writes section offsets; Section.address is 0 unless a layout was applied)",
@@ -144,11 +145,13 @@ def _sizes(tier):
     if tier == "quick":
         return [(n, 0) for n in (0, 1, 2, 3, 29, 30, 31, 59, 60, 61, 90, 91, 255, 256)] + \
                [(n, 64) for n in (65535, 65536, 65537, 65566, 65600)]
-    return [(n, 0) for n in list(range(0, 125)) + [255, 256, 257, 1000, 4095, 4096,
-                                                   65535, 65536, 65537, 65566, 65600, 70000]]
+    return [(n, 0) for n in list(range(0, 125)) + [255, 256, 257, 1000, 2000]] + \
+           [(n, 512) for n in (4095, 4096, 65535, 65536, 65537, 65566, 65600, 70000)]
 
 
 def jobs(tier, seed):
+    from ref import srec
+    srec.selftest()          # the reference reader agrees with the published example records
     js = [("mk_w", dict(size=n, window=w)) for n, w in _sizes(tier)]
     js.sort(key=lambda j: -j[1]["size"])
     only = os.environ.get("VERIF_ONLY")
